@@ -735,6 +735,10 @@ def rule_kwo_and_stars(check, model, rule, categories):
                                 if not v.conc or v.side != 'L':
                                     msgs.append(('exact', 'both inputs still offer their %s: the result must be the left one conciled with the '
                                                           'right one, found %s' % (kind, v.descr())))
+                                if not v.conc:
+                                    msgs.append(('conc', 'both inputs still offer their %s, and the result\'s is %s: a star parameter standing for '
+                                                         'both is not conciled (its annotation is one side\'s although they may disagree)'
+                                                 % (kind, v.descr())))
                             elif a_all is False and w0 is not None:
                                 want = 'L' if w0 else 'R'
                                 if v.side != want or v.conc:
